@@ -4,7 +4,8 @@ CONSTANTS
     Depth = 9
     Kinds = {"prod", "exch"}
     MaxN = 5
-    Limits = {1, 2, 3}
+    MaxZeros = 2
+    Limits = {0, 1, 2, 3}
     InitErrs = {FALSE, TRUE}
     Inputs = {"ok", "drift"}
     Decls = {TRUE, FALSE}
